@@ -197,3 +197,52 @@ Theorem c13_grouping_mode_independent :
       concat ps = data ->
       forall k, lookup keqb k (gbk keqb ps) = lookup keqb k (gbk keqb [data]).
 Proof. exact gbk_mode_independent. Qed.
+
+(* ---- Window's Eq / Hash / Ord agree on (start, end).  In the model a Window IS the pair
+   (start, end), so "equal iff same (start,end)" is true by construction of the model; what is
+   proved is that the transcribed `==` (window_eqb), `cmp` (window_cmp: start, then end),
+   `partial_cmp` and the words fed to the hasher (window_hash_feed) all decide exactly pair
+   equality.  That the real impls behave like these definitions is what the "weq"/"weqrow"
+   correspondence cases check (exhaustive over small windows + u64 extremes). ---- *)
+Theorem c13_window_eq_iff_pair :
+  forall a b : window, window_eqb a b = true <-> a = b.
+Proof. exact window_eq_iff_pair. Qed.
+
+Theorem c13_window_eq_hash_ord_consistent :
+  forall a b : window,
+    (window_eqb a b = true <-> a = b)
+    /\ (window_cmp a b = Eq <-> a = b)
+    /\ window_partial_cmp a b = Some (window_cmp a b)
+    /\ (window_hash_feed a = window_hash_feed b <-> a = b)
+    /\ window_cmp b a = CompOpp (window_cmp a b).
+Proof. exact window_consistent. Qed.
+
+Example c13_window_eq_ex :   (* same start, different end: different keys, ordered by end *)
+  window_eqb (0, 2) (0, 4) = false /\ window_cmp (0, 2) (0, 4) = Lt /\ window_cmp (0, 4) (2, 4) = Lt
+  /\ window_hash_feed (0, 2) <> window_hash_feed (0, 4).
+Proof. vm_compute. repeat split; congruence. Qed.
+
+(* ---- two window sizes meeting in ONE group_by_key (multi-resolution windowing): windows
+   that share a start or an end but differ in length stay distinct groups; nothing lost ---- *)
+Theorem c13_group_by_mixed_window_exact :
+  forall (V : Type) (s1 s2 off : Z) (ps : list (list (Z * (Z * V)))),
+    1 <= s1 -> 1 <= s2 ->
+    (forall e, In e (concat ps) ->
+               unrepresentable (fst (snd e)) (if fst e =? 0 then s1 else s2) off = false) ->
+    exists groups,
+      group_by_mixed_window tumble_debug s1 s2 off ps = Ok groups
+      /\ NoDup (map fst groups)
+      /\ Permutation (flatten groups) (map (spec_tag_mixed s1 s2 off) (concat ps))
+      /\ (forall w, In w (map fst groups)
+                    <-> In w (map fst (map (spec_tag_mixed s1 s2 off) (concat ps))))
+      /\ (forall w, lookup window_eqb w groups
+                    = values_of window_eqb w (map (spec_tag_mixed s1 s2 off) (concat ps)))
+      /\ (forall w vs, In (w, vs) groups ->
+                       vs = values_of window_eqb w (map (spec_tag_mixed s1 s2 off) (concat ps))
+                       /\ vs <> []).
+Proof. exact group_by_mixed_window_exact. Qed.
+
+Example c13_group_mixed_ex :   (* [0,2) and [0,4), [4,6) and [4,8) stay apart, 2 partitions *)
+  group_by_mixed_window tumble_debug 2 4 0 [[(0, (1, 1)); (1, (1, 2)); (0, (3, 3))]; [(1, (3, 4)); (1, (5, 5)); (0, (5, 6))]]
+  = Ok [((0, 2), [1]); ((0, 4), [2; 4]); ((2, 4), [3]); ((4, 8), [5]); ((4, 6), [6])].
+Proof. vm_compute. reflexivity. Qed.
